@@ -12,7 +12,10 @@ Driver module for C20.
 `C20 T <xs> <xys> <yxs> <ys> <xo> <yo> <x> <y> => tr t:<b>,<b> k:<b>,<b> tk:<b>*6 rt:<b>*6 kt:<b>*6`
   all numbers as bit patterns; `t` = `ContourPoint::transform`, `k` = `kurbo::Affine::from(t) * Point`,
   `tk` = coefficients of `kurbo::Affine::from(t)`, `rt` = fields of `AffineTransform::from(Affine::from(t))`,
-  `kt` = coefficients of `Affine::from(AffineTransform::from(Affine::new(inputs)))`.
+  `kt` = coefficients of `Affine::from(AffineTransform::from(Affine::new(inputs)))`; an additional token `p:<b>,<b>` is
+  `ContourPoint::transform` in the harness built with norad's DEFAULT features (no kurbo), `p:-` if unavailable.
+
+`C20 C <types> => cl k:<0|1> p:<0|1|->`  `Contour::is_closed` in both builds.
 -/
 namespace Driver.C20
 open Proto _root_.C20
@@ -172,10 +175,16 @@ def runTransform (args : List String) (obs : List String) : Verdict :=
     let implOut := " ".intercalate obs
     let field (pfx : String) : Option String :=
       (obs.find? (·.startsWith pfx)).map (fun s => (s.drop pfx.length).toString)
+    -- `p:` = `ContourPoint::transform` in the harness built WITHOUT the kurbo feature (`-`: no such binary)
+    let pObs := field "p:"
+    let modelOut := modelOut ++ (match pObs with
+      | none => ""
+      | some "-" => " p:-"
+      | some _ => " p:" ++ showFs [r.1, r.2])
     let inStr := showFs [xs, xys, yxs, ys, xo, yo]
     -- exact check of the formula of the property on inputs where integer arithmetic is exact
-    let exact : Option Bool :=
-      match ints, field "t:" with
+    let exactOf (fld : Option String) : Option Bool :=
+      match ints, fld with
       | [a, b, c, d, e, f, px, py], some ts =>
         if [a, b, c, d, e, f, px, py].all (fun v => v.natAbs ≤ 2 ^ 22) then
           let m := transform (⟨a, b, c, d, 4 * e, 4 * f⟩ : Affine Int) px py
@@ -184,22 +193,59 @@ def runTransform (args : List String) (obs : List String) : Verdict :=
           | _ => some false
         else none
       | _, _ => none
+    let exact := exactOf (field "t:")
+    let exactPlain := match pObs with
+      | some "-" => none
+      | other => exactOf other
     let spec : List String :=
       (match field "t:", field "k:" with
         | some a, some b => if a == b then [] else ["transform-ne-kurbo"]
         | _, _ => ["unreadable-transform"]) ++
       (if field "rt:" == some inStr then [] else ["roundtrip:norad-kurbo-norad"]) ++
       (if field "kt:" == some inStr then [] else ["roundtrip:kurbo-norad-kurbo"]) ++
-      (if exact == some false then ["formula"] else [])
+      (if exact == some false then ["formula"] else []) ++
+      (match pObs, field "t:" with
+        | some "-", _ => []
+        | some a, some b => if a == b then [] else ["transform-differs-between-builds"]
+        | _, _ => []) ++
+      (if exactPlain == some false then ["formula:plain"] else [])
     let tags := ["transform", if exact.isSome then "exact-int" else "float-only"] ++
+      (match pObs with | some "-" => ["noplain"] | some _ => ["plain"] | none => ["noplain"]) ++
       (if r.1.isNaN || r.2.isNaN then ["nan"] else []) ++
       (if r.1.isInf || r.2.isInf then ["inf"] else []) ++ ["nt"]
     { agree := modelOut == implOut, spec := spec, tags := tags, model := modelOut }
   | _, _ => { agree := false, model := "bad-input" }
 
+/-- `C20 C <types> => cl k:<0|1> p:<0|1|->`: `Contour::is_closed` in the kurbo build and in the default build -/
+def runClosed (types : String) (obs : List String) : Verdict :=
+  let ts := if types = "-" then some [] else types.toList.mapM ptTyp
+  match ts with
+  | none => { agree := false, model := "bad-input" }
+  | some bs =>
+    let pts : List (Pt P) := bs.map fun b => ⟨b, (0, 0)⟩
+    let m := if isClosed pts then "1" else "0"
+    -- the specification, independently: closed unless the first point is a `move`
+    let want := if C11.isClosed bs then "1" else "0"
+    let field (pfx : String) : Option String :=
+      (obs.find? (·.startsWith pfx)).map (fun s => (s.drop pfx.length).toString)
+    let pObs := field "p:"
+    let modelOut := "cl k:" ++ m ++ (match pObs with | none => "" | some "-" => " p:-" | some _ => " p:" ++ m)
+    let spec : List String :=
+      (if field "k:" == some want then [] else ["closed-test:kurbo"]) ++
+      (match pObs with
+        | some "-" => []
+        | none => []
+        | some v => (if v == want then [] else ["closed-test:plain"]) ++
+                    (if some v == field "k:" then [] else ["is-closed-differs-between-builds"]))
+    let tags := ["is-closed", if want == "1" then "closed" else "open"] ++
+      (match pObs with | some "-" => ["noplain"] | some _ => ["plain"] | none => ["noplain"]) ++
+      (if bs.length ≥ 1 then ["nt"] else [])
+    { agree := modelOut == " ".intercalate obs, spec := spec, tags := tags, model := modelOut }
+
 def run (inp obs : List String) : Verdict :=
   match inp with
   | [_, "K", types, coords] => runPath types coords obs
+  | [_, "C", types] => runClosed types obs
   | _ :: "T" :: args => runTransform args obs
   | _ => { agree := false, model := "bad-line" }
 
